@@ -167,6 +167,42 @@ theorem positional_pass_identity (repl : Str) : ∀ (fuel : Nat) (t : Str),
       simp only [subPyformat, matchPyformat_none _ h]
       rw [ih u (hasPctParen_tail c u h)]
 
+/-- **literal_survives_postprocessing_partial** — on a configuration without percent
+    doubling (the positional dialects: SQLite's qmark, asyncpg's numeric), a string value
+    that does not contain `%(` renders to a literal that `_process_positional` leaves
+    untouched, whatever else it contains.  (Full statement without the hypothesis is
+    false: `positional_pass_counterexample`.) -/
+theorem literal_survives_postprocessing_partial (c : Cfg) (h : wfLit c = true)
+    (hd : dblLit c = false) (s : Str) (hs : hasPctParen s = false) (repl : Str) (fuel : Nat) :
+    subPyformat repl fuel (renderString c s) = renderString c s := by
+  apply positional_pass_identity
+  rw [renderString_eq c h, hd]
+  have hpre : c.pre = [39] ∨ c.pre = [78, 39] := by
+    simp only [wfLit, Bool.and_eq_true, Bool.or_eq_true, beq_iff_eq] at h
+    exact h.1.1.2
+  have hbody : hasPctParen (s.flatMap (litChar false (bsLit c)) ++ [39]) = false := by
+    rw [hasPctParen_lit]
+    -- appending a quote to `s` creates no `%(`
+    have : ∀ (t : Str), hasPctParen t = false → hasPctParen (t ++ [39]) = false := by
+      intro t
+      induction t with
+      | nil => intro _; decide
+      | cons a u ih =>
+        intro ht
+        rw [hasPctParen_cons] at ht
+        simp only [Bool.or_eq_false_iff] at ht
+        rw [List.cons_append, hasPctParen_cons, ih ht.2]
+        cases u with
+        | nil =>
+          by_cases ha : a = 37 <;> simp [ha]
+        | cons b v => simpa using ht.1
+    exact this s hs
+  rcases hpre with e | e <;> rw [e]
+  · simp only [List.cons_append, List.nil_append, List.append_assoc]
+    rw [hasPctParen_cons, hbody]; simp
+  · simp only [List.cons_append, List.nil_append, List.append_assoc]
+    rw [hasPctParen_cons, hasPctParen_cons, hbody]; simp
+
 /-- the literal `'%(x)s'` rendered for SQLite (qmark) is rewritten to `'?'` -/
 theorem positional_pass_counterexample :
     subPyformat [63] 20 (renderString sqlite [37, 40, 120, 41, 115]) = [39, 63, 39] := by
